@@ -519,7 +519,9 @@ theorem add_closed (st st' : St) (r : Rec) (hc : Closed st) (he : add st r = .ok
           split at hp
           · rename_i k hk; exact linkOf_some_rt _ k hk
           · cases hp
-        exact addLinkOnto_closed st st' r l i hc hi hL he
+        split at he
+        · cases he
+        · exact addLinkOnto_closed st st' r l i hc hi hL he
       · exact addLinkFresh_closed st st' r hc he
   · split at he
     · exact register_closed st st' r hc he
